@@ -23,7 +23,7 @@ def dflt : Rec Nat Nat := [(0, 0), (1, 0)]
 def t0 : Table Nat Nat := [(1, [(0, 7), (1, 10), (2, 14)]), (2, [(0, 7), (1, 11), (2, 14)]), (4, [(0, 8), (1, 12), (2, 16)])]
 /-- three input rows: key 7 (two matches), key 8 (one match), key 9 (no match). -/
 def rq : Request Nat Nat :=
-  { require := [(0, [⟨7, 7⟩, ⟨8, 8⟩, ⟨9, 9⟩])], colValues := [(1, [20, 21, 22])] }
+  { require := [(0, [⟨7, 7, 7⟩, ⟨8, 8, 8⟩, ⟨9, 9, 9⟩])], colValues := [(1, [20, 21, 22])] }
 end Ex
 
 /-! ### implementation = reference -/
@@ -165,9 +165,9 @@ theorem upsert_validation_duplicate (sch : Schema κ) (t0 : Table κ α) (next :
 -- one input of each class (keys 1 and True arrive as the same raw token: Python's 1 == True)
 example : Invalid Ex.rq { onMany := .bad } := .badOnMany rfl
 example : Invalid ({ require := [], colValues := [(1, [20])] } : Request Nat Nat) {} := .emptyRequire rfl rfl
-example : Invalid ({ require := [(0, [⟨7, 7⟩, ⟨8, 8⟩])], colValues := [(1, [20])] } : Request Nat Nat) {} :=
+example : Invalid ({ require := [(0, [⟨7, 7, 7⟩, ⟨8, 8, 8⟩])], colValues := [(1, [20])] } : Request Nat Nat) {} :=
   .lengths ⟨2, by decide, 1, by decide, by decide⟩
-example : Invalid ({ require := [(0, [⟨1, 1⟩, ⟨1, 1⟩])], colValues := [(1, [20, 21])] } : Request Nat Nat) {} :=
+example : Invalid ({ require := [(0, [⟨1, 1, 1⟩, ⟨1, 1, 1⟩])], colValues := [(1, [20, 21])] } : Request Nat Nat) {} :=
   .duplicateKeys 2 (by decide) (by decide) (by decide)
 
 /-
@@ -182,7 +182,7 @@ example : Invalid ({ require := [(0, [⟨1, 1⟩, ⟨1, 1⟩])], colValues := [(
 -/
 namespace W2
 def sch : Schema Nat := [(0, .data), (1, .data)]
-def rq : Request Nat Nat := { require := [(0, [⟨5, 5⟩, ⟨50, 5⟩])], colValues := [(1, [20, 21])] }
+def rq : Request Nat Nat := { require := [(0, [⟨5, 5, 5⟩, ⟨50, 5, 5⟩])], colValues := [(1, [20, 21])] }
 end W2
 
 theorem validation_full_false :
@@ -270,8 +270,138 @@ theorem add_or_update_eq_spec (sch : Schema κ) (t0 : Table κ α) (next : Nat) 
         simp only []
         cases ra.recordIds <;> exact ⟨rfl, hi, hc⟩
 
-example : addOrUpdateImpl Ex.sch Ex.t0 5 Ex.dflt [(0, ⟨7, 7⟩)] [(1, 30)] { onMany := .all } =
+example : addOrUpdateImpl Ex.sch Ex.t0 5 Ex.dflt [(0, ⟨7, 7, 7⟩)] [(1, 30)] { onMany := .all } =
     .ok ([(1, [(0, 7), (1, 30), (2, 14)]), (2, [(0, 7), (1, 30), (2, 14)]), (4, [(0, 8), (1, 12), (2, 16)])],
          ⟨[1, 2], .update⟩) := by decide
+
+/-! ### empty columns (isFormula with an empty formula) -/
+
+namespace ExE
+/-- columns: 0 = key column, 1 = value column, 2 = a formula column, 3 = an EMPTY column. -/
+def sch : Schema Nat := [(0, .data), (1, .data), (2, .formula), (3, .empty)]
+def dflt : Rec Nat Nat := [(0, 0), (1, 0), (3, 0)]
+/-- two records; the cells of the empty column are all 0 (standing for None). -/
+def t0 : Table Nat Nat := [(1, [(0, 7), (1, 10), (2, 14), (3, 0)]), (2, [(0, 8), (1, 11), (2, 16), (3, 0)])]
+/-- one input row: key 9 in column 0, 18 in the formula column, 5 (stored as 55) in the empty column. -/
+def rq : Request Nat Nat :=
+  { require := [(0, [⟨9, 9, 9⟩]), (2, [⟨18, 18, 18⟩]), (3, [⟨5, 5, 55⟩])], colValues := [(1, [20])] }
+end ExE
+
+/-- **C28 (an added record holds its `require` values, empty columns included).**  The values of
+    the record added for input row `i` carry, for every `require` column that is not a real formula
+    column - in particular for every EMPTY column - and that `col_values` does not override, the
+    (stored form of the) `require` value of that row. -/
+theorem add_values_keep_require (sch : Schema κ) (rq : Request κ α) (i : Nat) (k : κ) (c : Cell α)
+    (hreq : aget (rowAt rq.require i) k = some c) (hk : aget sch k ≠ some .formula)
+    (hcv : aget (rowAt rq.colValues i) k = none) :
+    aget (addValues sch rq i) k = some c.store := by
+  unfold addValues
+  rw [aget_setAll, hcv]
+  simp only []
+  rw [aget_map_val ((rowAt rq.require i).filter (fun p => decide (aget sch p.1 ≠ some ColKind.formula)))
+        (fun _ c => c.store) k,
+      aget_filter_key (rowAt rq.require i) (fun k => decide (aget sch k ≠ some ColKind.formula)) k]
+  simp [hk, hreq]
+
+/-- … in particular for an empty column. -/
+theorem add_values_keep_empty_column (sch : Schema κ) (rq : Request κ α) (i : Nat) (k : κ) (c : Cell α)
+    (hreq : aget (rowAt rq.require i) k = some c) (hk : aget sch k = some .empty)
+    (hcv : aget (rowAt rq.colValues i) k = none) :
+    aget (addValues sch rq i) k = some c.store :=
+  add_values_keep_require sch rq i k c hreq (by rw [hk]; decide) hcv
+
+/-- Only real formula columns of `require` are left out of the added record. -/
+theorem add_values_drop_formula (sch : Schema κ) (rq : Request κ α) (i : Nat) (k : κ)
+    (hk : aget sch k = some .formula) (hcv : aget (rowAt rq.colValues i) k = none) :
+    aget (addValues sch rq i) k = none := by
+  unfold addValues
+  rw [aget_setAll, hcv]
+  simp only []
+  rw [aget_map_val ((rowAt rq.require i).filter (fun p => decide (aget sch p.1 ≠ some ColKind.formula)))
+        (fun _ c => c.store) k,
+      aget_filter_key (rowAt rq.require i) (fun k => decide (aget sch k ≠ some ColKind.formula)) k]
+  simp [hk]
+
+example : aget (rowAt ExE.rq.require 0) 3 = some ⟨5, 5, 55⟩ ∧ aget ExE.sch 3 = some .empty ∧
+    aget (rowAt ExE.rq.colValues 0) 3 = none ∧ aget ExE.sch 2 = some .formula := by decide
+-- the added record 3 holds key 9, value 20 and 55 in the empty column; nothing for the formula column
+example : upsertImpl ExE.sch ExE.t0 3 ExE.dflt ExE.rq {} =
+    .ok (ExE.t0 ++ [(3, [(0, 9), (1, 20), (3, 55)])], ⟨[[3]], [3], []⟩) := by decide
+
+/-- **C28 (conversions of empty columns, no conversion).**  `upsertImplConv` (the model the check
+    ties to the engine when an empty column takes part) without any converted column is `upsertImpl`:
+    all theorems above are about the same function. -/
+theorem upsertImplConv_nil (sch : Schema κ) (t0 : Table κ α) (next : Nat) (dflt : Rec κ α)
+    (rq : Request κ α) (opt : Options) :
+    upsertImplConv sch t0 next dflt rq opt [] [] = upsertImpl sch t0 next dflt rq opt := by
+  have hfill : ∀ t : Table κ α, fillCols t [] = t := by
+    intro t
+    unfold fillCols
+    induction t with
+    | nil => rfl
+    | cons p r ih => simp only [List.map_cons, ih]; rfl
+  unfold upsertImplConv upsertImpl
+  simp only [hfill]
+
+/-- The same for `AddOrUpdateRecord`. -/
+theorem addOrUpdateImplConv_nil (sch : Schema κ) (t0 : Table κ α) (next : Nat) (dflt : Rec κ α)
+    (require : List (κ × Cell α)) (colValues : List (κ × α)) (opt : Options) :
+    addOrUpdateImplConv sch t0 next dflt require colValues opt [] [] =
+      addOrUpdateImpl sch t0 next dflt require colValues opt := by
+  unfold addOrUpdateImplConv addOrUpdateImpl
+  simp only [upsertImplConv_nil]
+
+/-- **C28 (conversions of empty columns do not touch the answer).**  Whatever columns the two bulk
+    actions convert: the same error, or the same returned ids and the same row ids - a conversion
+    only changes cells (`fillCols`), never which records are matched, added or updated (all lookups
+    are done before the first bulk action). -/
+theorem upsertImplConv_result (sch : Schema κ) (t0 : Table κ α) (next : Nat) (dflt : Rec κ α)
+    (rq : Request κ α) (opt : Options) (cvAdd cvUpd : Rec κ α) :
+    match upsertImplConv sch t0 next dflt rq opt cvAdd cvUpd, upsertImpl sch t0 next dflt rq opt with
+    | .ok (ta, ra), .ok (tb, rb) => ra = rb ∧ tids ta = tids tb
+    | .error ea, .error eb => ea = eb
+    | _, _ => False := by
+  have htf : ∀ (t : Table κ α) (f : Rec κ α), tids (fillCols t f) = tids t := by
+    intro t f
+    unfold fillCols tids
+    rw [List.map_map]
+    rfl
+  unfold upsertImplConv upsertImpl
+  cases validate sch rq opt with
+  | error e => exact rfl
+  | ok o =>
+    cases o with
+    | none => exact ⟨by first | rfl | trivial, by first | rfl | trivial⟩
+    | some n =>
+      simp only []
+      generalize implAcc sch t0 rq opt n = acc
+      by_cases ha : acc.adds.isEmpty = true
+      · simp only [ha, if_true]
+        by_cases hu : acc.upds.isEmpty = true
+        · simp only [hu, if_true]
+          exact ⟨by first | rfl | trivial, by first | rfl | trivial⟩
+        · simp only [hu, Bool.false_eq_true, if_false]
+          cases checkCols sch (akeys rq.colValues) with
+          | error e => exact rfl
+          | ok _ => exact ⟨by first | rfl | trivial, by rw [tids_bulkUpdate, tids_bulkUpdate, htf]⟩
+      · simp only [ha, Bool.false_eq_true, if_false]
+        cases checkCols sch (akeys rq.colValues ++
+            (requireAddKeys sch rq).filter (fun k => decide (k ∉ akeys rq.colValues))) with
+        | error e => exact rfl
+        | ok _ =>
+          simp only []
+          by_cases hu : acc.upds.isEmpty = true
+          · simp only [hu, if_true]
+            exact ⟨by first | rfl | trivial, by rw [tids_append, tids_append, htf]⟩
+          · simp only [hu, Bool.false_eq_true, if_false]
+            cases checkCols sch (akeys rq.colValues) with
+            | error e => exact rfl
+            | ok _ =>
+              exact ⟨by first | rfl | trivial, by rw [tids_bulkUpdate, tids_bulkUpdate, htf, tids_append, tids_append, htf]⟩
+
+-- the empty column 3 is converted by BulkAddRecord (new default 1 for the existing rows)
+example : upsertImplConv ExE.sch ExE.t0 3 ExE.dflt ExE.rq {} [(3, 1)] [] =
+    .ok ([(1, [(0, 7), (1, 10), (2, 14), (3, 1)]), (2, [(0, 8), (1, 11), (2, 16), (3, 1)]),
+          (3, [(0, 9), (1, 20), (3, 55)])], ⟨[[3]], [3], []⟩) := by decide
 
 end Grist.Upsert
